@@ -80,8 +80,25 @@ def cases(ctx):
 
 
 def judge(ctx, case):
+    key = sum(case.get('lens') or [len(v) for v in dict(case.get('items') or {}).values()])
+    if case['cfg'] == 'packaged' and key % 9 == 4:
+        # the packaged configuration itself (the object the library uses when none is given), adjusted by the application
+        # after everything was imported: DE62 stops being a carrier.  Restored afterwards.
+        from cardutil.config import config as live
+        entry = live['bit_config']['62']
+        saved = entry.pop('field_processor', None)
+        ctx.count('sets packed under the live packaged configuration after it was adjusted')
+        try:
+            return judge_inner(ctx, case, live['bit_config'])
+        finally:
+            if saved is not None:
+                entry['field_processor'] = saved
+    return judge_inner(ctx, case)
+
+
+def judge_inner(ctx, case, forced_cfg=None):
     iso = ctx.iso
-    cfg = msgwork.cfg_of(case['cfg'])
+    cfg = forced_cfg if forced_cfg is not None else msgwork.cfg_of(case['cfg'])
     enc = case['enc']
     if case['kind'] == 'seeded':
         items = dict(case['items'])
@@ -100,6 +117,8 @@ def judge(ctx, case):
     # (its id may be that of an earlier, dead one), one in eight on a copy that was used once and then had one of its
     # carriers moved to another element - whatever the library remembered about the object is stale then
     mode = (len(order) * 5 + sum(len(v) for v in items.values())) % 8
+    if forced_cfg is not None:
+        mode = 0
     if mode in (1, 2, 5):
         cfg = copy.deepcopy(cfg)
         ctx.count('sets packed under a throwaway copy of the configuration')
@@ -202,6 +221,8 @@ def require(m):
         reasons.append('no PDS set was supplied out of order')
     if not m['counters'].get('sets packed after a carrier was moved in an already used configuration object') and not m['violations']:
         reasons.append('no set packed after a carrier was moved in a used configuration object')
+    if not m['counters'].get('sets packed under the live packaged configuration after it was adjusted') and not m['violations']:
+        reasons.append('live packaged configuration never adjusted')
     if not m['counters'].get('sets containing tag 0000'):
         reasons.append('tag 0000 never used')
     if not m['counters'].get('sets with a zero-length value'):
